@@ -126,9 +126,10 @@ def _merge_cfgs():
 # ---------------------------------------------------------------- flatten
 
 
-def h_flatten(ctx, chroms, gene=False):
+def h_flatten(ctx, chroms, gene=False, case=None):
     genes = [f"g{i}" for i in range(len(chroms))] if gene else None
     rows = sym_rows(ctx, "a", chroms, genes)
+    apply_case(ctx, case)
     ga = make_ga(rows, gene)
     try:
         out = ga.flatten()
@@ -161,7 +162,9 @@ def _flatten_cfgs():
         for lay in _layouts(n):
             for gene in (False, True):
                 cfgs.append({"chroms": lay, "gene": gene})
-    cfgs.append({"chroms": ["chr1"] * 4, "tier": "thorough"})
+    # four rows: the table is sorted before the operation, so the symbolic rows are taken in start
+    # order without loss (any other order is the same table); split further on the end points
+    cfgs += split_cases({"chroms": ["chr1"] * 4, "tier": "thorough"}, ("as0<=as1",), ("as1<=as2",), ("as2<=as3",), ("ae0<=as1", "ae0>as1"), ("ae1<=as2", "ae1>as2"), ("ae2<=as3", "ae2>as3"), ("ae0<=as2", "ae0>as2"), ("ae1<=as3", "ae1>as3"))
     return cfgs
 
 
@@ -201,6 +204,8 @@ def h_subtract(ctx, a_chroms, b_chroms, case=None):
 
 
 _S22 = (("as0<=as1", "as0>as1"), ("bs0<=bs1", "bs0>bs1"), ("as0<=bs0", "as0>bs0"), ("ae0<=bs1", "ae0>bs1"))
+_S23 = (("as0<=as1",), ("bs0<=bs1",), ("bs1<=bs2",), ("as0<=bs0", "as0>bs0"), ("ae0<=bs1", "ae0>bs1"), ("as1<=bs2", "as1>bs2"), ("as1<=bs1", "as1>bs1"), ("ae1<=bs2", "ae1>bs2"), ("ae0<=bs0", "ae0>bs0"))
+_S32 = (("as0<=as1",), ("as1<=as2",), ("bs0<=bs1",), ("as0<=bs0", "as0>bs0"), ("ae0<=bs1", "ae0>bs1"), ("as2<=bs0", "as2>bs0"), ("as1<=bs0", "as1>bs0"), ("ae1<=bs1", "ae1>bs1"), ("ae2<=bs1", "ae2>bs1"))
 
 
 def _subtract_cfgs():
@@ -213,10 +218,12 @@ def _subtract_cfgs():
         {"a_chroms": [c1], "b_chroms": [c2]},
         {"a_chroms": [c1, c2], "b_chroms": [c2, c2], "tier": "thorough"},
         {"a_chroms": [c1], "b_chroms": [c1, c1, c1], "tier": "thorough"},
-        {"a_chroms": [c1, c1], "b_chroms": [c1, c1, c1], "tier": "thorough"},
     ]
     cfgs += split_cases({"a_chroms": [c1, c1], "b_chroms": [c1, c1]}, *_S22)
-    cfgs += split_cases({"a_chroms": [c1, c1, c1], "b_chroms": [c1, c1], "tier": "thorough"}, *_S22, ("as2<=bs0", "as2>bs0"), ("as1<=as2", "as1>as2"))
+    # 2 x 3 and 3 x 2 rows: both tables are sorted before the operation, so each table's symbolic rows
+    # are taken in start order without loss; the remaining cross comparisons are spread over the cores
+    cfgs += split_cases({"a_chroms": [c1, c1], "b_chroms": [c1, c1, c1], "tier": "thorough"}, *_S23)
+    cfgs += split_cases({"a_chroms": [c1, c1, c1], "b_chroms": [c1, c1], "tier": "thorough"}, *_S32)
     return cfgs
 
 
@@ -265,7 +272,7 @@ def _intersect_cfgs():
         {"a_chroms": [c1], "b_chroms": [c1, c2]},
     ]
     cfgs += split_cases({"a_chroms": [c1, c1], "b_chroms": [c1, c1]}, *_S22)
-    cfgs += split_cases({"a_chroms": [c1, c1], "b_chroms": [c1, c1, c1], "tier": "thorough"}, *_S22, ("bs1<=bs2", "bs1>bs2"), ("as1<=bs2", "as1>bs2"))
+    cfgs += split_cases({"a_chroms": [c1, c1], "b_chroms": [c1, c1, c1], "tier": "thorough"}, *_S23)
     return cfgs
 
 
@@ -421,9 +428,9 @@ def h_total(ctx, chroms):
 
 HARNESSES = [
     Harness("merge", h_merge, _merge_cfgs(), covers=["merged-some", "merged-none"], wall_s=200, thorough_wall_s=1500),
-    Harness("flatten", h_flatten, _flatten_cfgs(), covers=["pieces-more-than-rows"], wall_s=200, thorough_wall_s=1500),
-    Harness("subtract", h_subtract, _subtract_cfgs(), covers=["split-in-two", "row-removed", "b-nested"], wall_s=200, thorough_wall_s=1500),
-    Harness("intersect_trim", h_intersect_trim, _intersect_cfgs(), covers=["trimmed", "empty-intersection"], wall_s=200, thorough_wall_s=1500),
+    Harness("flatten", h_flatten, _flatten_cfgs(), covers=["pieces-more-than-rows"], wall_s=200, thorough_wall_s=3000, max_paths=60000),
+    Harness("subtract", h_subtract, _subtract_cfgs(), covers=["split-in-two", "row-removed", "b-nested"], wall_s=200, thorough_wall_s=3000, max_paths=60000),
+    Harness("intersect_trim", h_intersect_trim, _intersect_cfgs(), covers=["trimmed", "empty-intersection"], wall_s=200, thorough_wall_s=3000, max_paths=60000),
     Harness("subdivide", h_subdivide, _subdivide_cfgs(), covers=["split", "dropped-small"], wall_s=200, thorough_wall_s=1500),
     Harness(
         "resize",
